@@ -48,19 +48,41 @@ def run (ctx):
     ctx.ob('R-AGREE', lof.short + ':OFPFW_NW_%s' % side, "prefix mask / shift / ALL are consistent", good, "mask=0x%x shift=%s bits=%s all=0x%x" % (mask or 0, sh, bits, allv or 0), None, 'D2')
   allc = ofreg.const_value(repo, lof, 'OFPFW_ALL')
   ctx.ob('R-AGREE', lof.short + ':OFPFW_ALL', "OFPFW_ALL covers all 22 wildcard bits", allc == (1 << 22) - 1, "0x%x" % (allc or 0), None, 'D2')
+  # transport-field prerequisite: the protocols under which tp_src/tp_dst are kept on the wire must be exactly the
+  # ones from_packet can extract ports / type+code for (ICMP, TCP, UDP): a wider set yields flows no frame can match,
+  # a narrower one silently wildcards a field the controller specified
+  nproto = 0
+  for f_ in m.methods.values():
+    for n in ast.walk(f_.node):
+      if isinstance(n, ast.Compare) and len(n.ops) == 1 and isinstance(n.ops[0], (ast.In, ast.NotIn)) and isinstance(n.left, ast.Attribute) and n.left.attr in ('nw_proto', '_nw_proto'):
+        v = repo.try_const(lof, n.comparators[0], m)
+        if v is None: ctx.undecided('R-AGREE', f_, "transport prerequisite set `%s`" % norm(n), "cannot evaluate the protocol set", (lof, n), 'D2'); continue
+        nproto += 1
+        good = set(v) == {1, 6, 17}
+        ctx.ob('R-AGREE', f_, "transport fields are kept exactly for ICMP, TCP and UDP (`%s`)" % norm(n)[:50], good, "%s" % (sorted(v),) if good else
+               "the prerequisite set is %s but from_packet extracts transport fields only for protocols 1, 6 and 17: a flow on another protocol with tp_src/tp_dst specified is "
+               "installed un-wildcarded and can never match a frame (extraction yields no ports for it)" % (sorted(v),), (lof, n), 'D2')
+  ctx.floor('transport prerequisite tests', nproto, 3)
   # ---- D1 -------------------------------------------------------------------------------------------
   mw = q.find_method(repo, m, 'matches_with_wildcards', 'C03'); eq = q.find_method(repo, m, '__eq__', 'C03')
   ctx.analysed(mw); ctx.analysed(eq)
   other = mw.params[1]
   tested = set()
+  def pair (a, b, site):
+    fa = a.attr if isinstance(a, ast.Attribute) else None; fb = b.attr if isinstance(b, ast.Attribute) else None
+    if fa is None or fb is None: return
+    va, vb = norm(a.value), norm(b.value)
+    if {va, vb} != {'self', other} and not (va == 'self' and vb == other): return
+    if va != 'self': fa, fb = fb, fa
+    good = fa == fb
+    if fa in fields or fb in fields:
+      tested.add(fa)
+      ctx.ob('R-AGREE', mw, "comparison `%s` pairs the same field of both matches" % norm(site), good, "self.%s vs %s.%s" % (fa, other, fb) if good else
+             "`%s` compares field `%s` of this match with field `%s` of the other" % (norm(site), fa, fb), (lof, site), 'D1')
   for c in calls_in(mw.node):
-    if call_name(c) == 'match_fail' and len(c.args) == 2:
-      a, b = c.args
-      fa = a.attr if isinstance(a, ast.Attribute) else None; fb = b.attr if isinstance(b, ast.Attribute) else None
-      good = fa is not None and fa == fb and norm(a.value) == 'self' and norm(b.value) == other
-      if fa: tested.add(fa)
-      ctx.ob('R-AGREE', mw, "comparison `%s` pairs the same field of both matches" % norm(c), good, "self.%s vs %s.%s" % (fa, other, fb) if good else
-             "`%s` compares field `%s` of this match with field `%s` of the other" % (norm(c), fa, fb), (lof, c), 'D1')
+    if call_name(c) == 'match_fail' and len(c.args) == 2: pair(c.args[0], c.args[1], c)
+  for n in walk_no_nested(mw.node):
+    if isinstance(n, ast.Compare) and len(n.ops) == 1 and isinstance(n.ops[0], (ast.NotEq, ast.Eq)): pair(n.left, n.comparators[0], n)
   for side in ('src', 'dst'):
     g1 = [c for c in calls_in(mw.node) if call_name(c) == 'get_nw_' + side]
     if any(norm(c.func.value) == 'self' for c in g1) and any(norm(c.func.value) == other for c in g1): tested.add('nw_' + side)
@@ -69,6 +91,17 @@ def run (ctx):
          "field(s) %s are never compared: two matches (or a match and a frame) that differ only there are treated as matching" % missing, mw, 'D1')
   g = q.cfg_of(mw)
   mfn = q.nested_defs(mw.node).get('match_fail')
+  if mfn is None:
+    # unrolled / inlined form: each field comparison `self.X != other.X` must lead to the negative result and
+    # must be skipped only when self.X is None
+    for n in g.nodes:
+      if n.kind == 'cond' and isinstance(n.ast, ast.Compare) and isinstance(n.ast.ops[0], ast.NotEq) and isinstance(n.ast.left, ast.Attribute) and norm(n.ast.left.value) == 'self' and n.ast.left.attr in fields:
+        fs = q.fact_strs(g, n)
+        skip_ok = all(not (f.startswith('self.%s ' % n.ast.left.attr)) or f == 'self.%s is not None' % n.ast.left.attr for f in fs)
+        tb = [b for b, l in n.succ if l is True]
+        neg = bool(tb) and all(x.kind == 'return' and isinstance(x.ast.value, ast.Constant) and x.ast.value.value is False for b in tb for x, l2 in b.succ)
+        ctx.ob('R-AGREE', mw, "field `%s`: a wildcarded field never fails; a specified one must be equal" % n.ast.left.attr, skip_ok and neg,
+               "compared unless None; inequality -> no match" if skip_ok and neg else "comparison of `%s` is guarded by %s / does not end the match negatively" % (n.ast.left.attr, fs), (lof, n.ast), 'D1')
   if mfn is not None:
     src = norm(mfn)
     good = 'if mine is None: return False' in src.replace('\n', ' ').replace('    ', ' ').replace('  ', ' ') or ('mine is None' in src and 'return mine != others' in src)
@@ -90,32 +123,72 @@ def run (ctx):
   # ---- D3 extraction ------------------------------------------------------------------------------------
   fp = q.find_method(repo, m, 'from_packet', 'C03'); ctx.analysed(fp)
   g = q.cfg_of(fp)
+  # the match under construction: the local that is returned
+  mvar = None
+  for r in q.returns_of(fp.node):
+    if isinstance(r.value, ast.Name): mvar = r.value.id
+  if mvar is None: raise AnalysisError("from_packet no longer returns a local match object")
   assigns = []
   for t, v, st, k in q.stores_in(fp.node, nested=False):
-    if isinstance(t, ast.Attribute) and norm(t.value) == 'match' and v is not None:
+    if isinstance(t, ast.Attribute) and norm(t.value) == mvar and v is not None:
       assigns.append((t.attr, norm(v), q.enclosing_stmt_node(g, st), st))
   ctx.floor('extraction assignments', len(assigns), 14)
-  isi = lambda cls: (lambda e: isinstance(e, ast.Call) and call_name(e) == 'isinstance' and len(e.args) == 2 and norm(e.args[1]) == cls)
+  def isi (cls):
+    def m_ (e):
+      if not (isinstance(e, ast.Call) and call_name(e) == 'isinstance' and len(e.args) == 2): return False
+      k = e.args[1]
+      return norm(k) == cls or (isinstance(k, ast.Tuple) and all(norm(x) in (cls,) for x in k.elts))
+    return m_
+  def isi_any (true_classes):
+    # isinstance(x, (a, b)): true when any member is true in this scenario
+    def m_ (e):
+      return isinstance(e, ast.Call) and call_name(e) == 'isinstance' and len(e.args) == 2 and isinstance(e.args[1], ast.Tuple) and len(e.args[1].elts) > 1
+    return m_
   ALLC = ('llc', 'vlan', 'ipv4', 'arp', 'udp', 'tcp', 'icmp', 'ofp_packet_in')
-  def env (true_classes, extra=None, frag=None):
+  def attr_cmp (attr, ops, const):
+    def m_ (e):
+      return isinstance(e, ast.Compare) and len(e.ops) == 1 and isinstance(e.left, ast.Attribute) and e.left.attr == attr and type(e.ops[0]) in ops \
+             and isinstance(e.comparators[0], ast.Constant) and e.comparators[0].value == const
+    return m_
+  def env (true_classes, extra=None, frag=None, non_eth=False):
     ms = [(isi(c), c in true_classes) for c in ALLC]
-    ex = {'spec_frags': True, 'in_port is not None': True, 'packet.type < 1536': False, 'p.opcode <= 255': True}
+    class TupleIsi(object): pass
+    def tuple_isi (e):
+      return isinstance(e, ast.Call) and call_name(e) == 'isinstance' and len(e.args) == 2 and isinstance(e.args[1], ast.Tuple) and len(e.args[1].elts) > 1
+    # a tuple isinstance is true iff one of its members is
+    for combo_true in (True, False):
+      pass
+    ms.append(((lambda e, tc=true_classes: tuple_isi(e) and any(norm(x) in tc for x in e.args[1].elts)), True))
+    ms.append(((lambda e, tc=true_classes: tuple_isi(e) and not any(norm(x) in tc for x in e.args[1].elts)), False))
+    ex = {'spec_frags': True, 'in_port is not None': True}
+    ms.append((attr_cmp('type', (ast.Lt,), 1536), non_eth)); ms.append((attr_cmp('type', (ast.GtE,), 1536), not non_eth))
+    ms.append((attr_cmp('opcode', (ast.LtE,), 255), True)); ms.append((attr_cmp('opcode', (ast.Gt,), 255), False))
     if frag is not None:
       mf, off = frag
       ms.append((lambda e: isinstance(e, ast.BinOp) and isinstance(e.op, ast.BitAnd) and 'MF_FLAG' in norm(e), 0x2000 if mf else 0))
-      ex['p.frag != 0'] = off; ex['p.frag == 0'] = not off; ex['p.frag'] = 5 if off else 0
-    if extra: ex.update(extra)
+      ms.append((attr_cmp('frag', (ast.NotEq,), 0), bool(off))); ms.append((attr_cmp('frag', (ast.Eq,), 0), not off)); ms.append((attr_cmp('frag', (ast.Gt,), 0), bool(off)))
+      ms.append((lambda e: isinstance(e, ast.Attribute) and e.attr == 'frag', 5 if off else 0))
+    if extra:
+      for k_, v_ in extra.items():
+        if callable(k_): ms.append((k_, v_))
+        else: ex[k_] = v_
     return q.Env(ex, ms)
+  def same (spec_val, got_val):
+    if spec_val == got_val: return True
+    if '.' in spec_val and not spec_val[0].isdigit():
+      suf = spec_val[spec_val.index('.'):]
+      return got_val.endswith(suf) and not got_val[:-len(suf)].endswith(')')
+    return False
   def decided (label, e, want, forbid=()):
     r = q.reach_under(repo, lof, g, e, m)
     live = [(f_, val) for f_, val, n, st in assigns if n in r]
     for f_, val in want.items():
       got = [v for ff, v in live if ff == f_]
-      good = val in got
+      good = any(same(val, x) for x in got)
       ctx.ob('R-AGREE', fp, "%s: match.%s = %s" % (label, f_, val), good, "assignment reachable" if good else
              "for %s the extraction assigns %s to match.%s, the specification prescribes %s" % (label, got or 'nothing', f_, val), fp, 'D3')
     for f_, val in forbid:
-      got = [v for ff, v in live if ff == f_ and v == val]
+      got = [v for ff, v in live if ff == f_ and same(val, v)]
       ctx.ob('R-AGREE', fp, "%s: match.%s is not taken from %s" % (label, f_, val), not got, "unreachable" if not got else
              "for %s the assignment match.%s = %s is still reachable: the match carries a value the specification says must not be used" % (label, f_, val), fp, 'D3')
   decided("any frame", env(()), ext['always'])
@@ -127,8 +200,10 @@ def run (ctx):
   for label, fr in (("a first fragment (offset 0, more-fragments set)", (True, False)), ("a later fragment (offset != 0)", (False, True)), ("a middle fragment", (True, True))):
     decided(label, env(('ipv4', 'udp', 'tcp'), frag=fr), ext['fragment'], forbid=[('tp_src', 'p.srcport'), ('tp_dst', 'p.dstport')])
   decided("an ARP packet", env(('arp',)), ext['arp'])
-  decided("an 802.3 frame without ethertype", env((), extra={'packet.type < 1536': True}), ext['non_ethertype'])
-  decided("an LLC/SNAP frame with OUI 0", env(('llc',), extra={'packet.type < 1536': True, 'p.has_snap': True, "p.oui == b'\\x00\\x00\\x00'": True}), ext['snap'])
+  decided("an 802.3 frame without ethertype", env((), non_eth=True), ext['non_ethertype'])
+  snap = {(lambda e: isinstance(e, ast.Attribute) and e.attr == 'has_snap'): True,
+          (lambda e: isinstance(e, ast.Compare) and isinstance(e.left, ast.Attribute) and e.left.attr == 'oui' and isinstance(e.ops[0], ast.Eq)): True}
+  decided("an LLC/SNAP frame with OUI 0", env(('llc',), extra=snap, non_eth=True), ext['snap'])
   ip = [st for f_, val, n, st in assigns if f_ == 'in_port']
   ctx.ob('R-AGREE', fp, "the ingress port is recorded when given", bool(ip) and norm(ip[0].value) == fp.params[2], norm(ip[0]) if ip else "?", fp, 'D3')
   for cf in btypes.conflicts(fp.node):
@@ -171,22 +246,54 @@ def run (ctx):
   g = q.cfg_of(ae)
   ins = [c for c in calls_in(ae.node) if call_name(c) == 'insert']
   srt = [c for c in calls_in(ae.node) if call_name(c) == 'sort']
-  if ins:
+  bis = [c for c in calls_in(ae.node) if call_name(c) in ('bisect_left', 'bisect_right', 'bisect', 'insort', 'insort_left', 'insort_right')]
+  if ins and bis:
+    # ordered insert through a parallel list of sort keys: sound only if every writer of the table keeps that list in step
+    c = bis[0]
+    keyattr = c.args[0].attr if c.args and isinstance(c.args[0], ast.Attribute) and norm(c.args[0].value) == 'self' else None
+    if keyattr is None or keyattr == '_table':
+      ctx.undecided('R-AGREE', ae, "ordered-insert idiom", "bisect call not understood: %s" % norm(c), (ftm, c), 'D4')
+    else:
+      for f in ft.methods.values():
+        if f.name == '__init__': continue
+        tw = list(q.mutations_of_attr(f.node, '_table')); kw_ = list(q.mutations_of_attr(f.node, keyattr))
+        if tw:
+          ctx.ob('R-AGREE', f, "the sort-key list `%s` is updated wherever the table is" % keyattr, bool(kw_), "both updated" if kw_ else
+                 "%s changes self._table but not self.%s, which add_entry bisects on: after this runs the two lists are out of step and later entries are inserted "
+                 "at the wrong rank - lookup returns a lower-priority entry first" % (f.qual, keyattr), (ftm, tw[0][1]), 'D4')
+      ctx.undecided('R-AGREE', ae, "ordered-insert idiom (key list)", "descending order through negated keys is not evaluated", ae, 'D4') if False else None
+  elif ins:
     loops = [(s_, h, a) for (s_, h, a) in g.loop_nodes if isinstance(s_, ast.While)]
-    cmp_ = [n for n in g.nodes if n.kind == 'cond' and 'effective_priority' in norm(n.ast)]
-    prio = q.single_def(ae.node, 'priority')
-    ok_ = bool(loops) and len(cmp_) == 1 and prio is not None and norm(prio).endswith('.effective_priority')
-    if ok_:
-      t = cmp_[0].ast
-      facts = q.facts_of(t, True)
-      # descending order: move `high` down when new >= table[middle] (insert before equal or lower entries)
-      good = any(norm(l) == 'priority' and o in ('>=', '>') and 'effective_priority' in norm(r) for l, o, r in facts) or any(norm(r) == 'priority' and o in ('<=', '<') and 'effective_priority' in norm(l) for l, o, r in facts)
-      hb = [st for t_, v, st, k in q.stores_in(ae.node) if isinstance(t_, ast.Name) and t_.id == 'high' and norm(v) == 'middle']
-      hn = [q.enclosing_stmt_node(g, s_) for s_ in hb]
-      tb = bool(hn) and any(norm(t) + ':truthy' in q.fact_strs(g, x) or any(norm(t) == f for f in q.fact_strs(g, x)) for x in hn)
-      ctx.ob('R-AGREE', ae, "binary insert keeps descending effective priority", good and tb, "high = middle when new >= table[middle]" if good and tb else
-             "the bisection compares `%s` and moves `high` on %s: entries end up in ascending order - lookup returns the lowest priority match first" % (norm(t), 'that branch' if tb else 'the other branch'), (ftm, t), 'D4')
-      ctx.ob('R-AGREE', ae, "the entry is inserted at the position found", norm(ins[0].args[0]) == 'low' and norm(ins[0].args[1]) == ae.params[1], norm(ins[0]), (ftm, ins[0]), 'D4')
+    # bisection: V_hi = middle on one branch, V_lo = middle + 1 on the other; decided from the facts at the two updates
+    stores = [(t_, v, st) for t_, v, st, k in q.stores_in(ae.node, nested=False) if isinstance(t_, ast.Name) and v is not None]
+    def is_mid (e):
+      e2 = e
+      if isinstance(e2, ast.Name):
+        d = [v for t_, v, st in stores if t_.id == e2.id]
+        if len(d) == 1: e2 = d[0]
+      return isinstance(e2, ast.BinOp) and isinstance(e2.op, ast.FloorDiv) and isinstance(e2.right, ast.Constant) and e2.right.value == 2 and isinstance(e2.left, ast.BinOp) and isinstance(e2.left.op, ast.Add)
+    hi_up = [(t_, st) for t_, v, st in stores if is_mid(v) and not (isinstance(v, ast.BinOp) and isinstance(v.op, ast.Add))]
+    tnames = set(q.names_in(loops[0][0].test)) if loops else set()
+    hi_up = [(t_, st) for t_, st in hi_up if t_.id in tnames]
+    lo_up = [(t_, st) for t_, v, st in stores if isinstance(v, ast.BinOp) and isinstance(v.op, ast.Add) and isinstance(v.right, ast.Constant) and v.right.value == 1 and is_mid(v.left)]
+    if loops and len(hi_up) == 1 and len(lo_up) == 1:
+      hn = q.enclosing_stmt_node(g, hi_up[0][1])
+      rel = None
+      for l, o, r, b_ in q.guard_facts(g, hn):
+        if r is None: continue
+        L, R = norm(l), norm(r)
+        if 'effective_priority' not in L + R: continue
+        tab_left = '[' in L and '[' not in R
+        tab_right = '[' in R and '[' not in L
+        if tab_right: o = q.flip(o); tab_left = True
+        if tab_left and o in ('<', '<=', '>', '>='): rel = o
+      good = rel in ('<=', '<')
+      ctx.ob('R-AGREE', ae, "binary insert keeps descending effective priority", good, "upper bound moves down when table[middle] %s new" % rel if good else
+             "the bisection lowers its upper bound when table[middle] %s new priority: entries end up in ascending order (or the shape was not understood) - lookup returns the lowest priority match first" % rel, (ftm, hi_up[0][1]), 'D4')
+      lo_name = lo_up[0][0].id
+      c = ins[0]
+      good = len(c.args) == 2 and norm(c.args[0]) == lo_name and norm(c.args[1]) == ae.params[1]
+      ctx.ob('R-AGREE', ae, "the entry is inserted at the position found", good, norm(c), (ftm, c), 'D4')
     else:
       ctx.undecided('R-AGREE', ae, "ordered-insert idiom", "binary search shape not recognised", ae, 'D4')
   elif srt:
@@ -198,8 +305,23 @@ def run (ctx):
   # lookup
   g = q.cfg_of(efp)
   loops = [(s_, h, a) for (s_, h, a) in g.loop_nodes if isinstance(s_, ast.For)]
-  good = len(loops) == 1 and norm(loops[0][0].iter) == 'self._table'
-  ctx.ob('R-AGREE', efp, "lookup scans the sorted table from the front", good, norm(loops[0][0].iter) if loops else "no loop", efp, 'D4')
+  gen = None
+  for r in q.returns_of(efp.node):
+    v = r.value
+    if isinstance(v, ast.Call) and call_name(v) == 'next' and v.args and isinstance(v.args[0], ast.GeneratorExp): gen = v
+  if gen is not None and not loops:
+    ge = gen.args[0]; c0 = ge.generators[0]
+    good = len(ge.generators) == 1 and norm(c0.iter) == 'self._table'
+    ctx.ob('R-AGREE', efp, "lookup scans the sorted table from the front", good, "next(generator over %s)" % norm(c0.iter), efp, 'D4')
+    hit = norm(ge.elt) == norm(c0.target) and len(c0.ifs) == 1 and any(call_name(c) == 'matches_with_wildcards' for c in calls_in(c0.ifs[0])) \
+          and not (isinstance(c0.ifs[0], ast.UnaryOp) and isinstance(c0.ifs[0].op, ast.Not))
+    ctx.ob('R-AGREE', efp, "the first matching entry is returned", hit, "first element satisfying the match test", efp, 'D4')
+    dflt = len(gen.args) == 2 and isinstance(gen.args[1], ast.Constant) and gen.args[1].value is None
+    ctx.ob('R-DOM', efp, "a miss is reported only after the whole table was scanned", dflt, "next(..., None)" if dflt else "next() without the None default raises StopIteration on a miss", efp, 'D4')
+    ctx.ob('R-ALL', efp, "the scan is never abandoned early", True, "generator consumed by next()", efp, 'D4')
+  else:
+    good = len(loops) == 1 and norm(loops[0][0].iter) == 'self._table'
+    ctx.ob('R-AGREE', efp, "lookup scans the sorted table from the front", good, norm(loops[0][0].iter) if loops else "no loop", efp, 'D4')
   if loops:
     st_, h, a = loops[0]
     rets = [n for n in g.nodes if n.kind == 'return' and n in g.loop_body_nodes(h) or (n.kind == 'return' and any(b.label[0] is st_ for b in g.nodes if b.kind == 'branch' and g.dominates(b, n) and b.label[1] is True))]
@@ -220,13 +342,17 @@ def run (ctx):
   # effective priority
   ep = te.methods.get('effective_priority')
   if ep is None: raise AnalysisError("TableEntry.effective_priority vanished")
-  rv = q.returns_of(ep.node)
-  good = False
-  if rv and isinstance(rv[0].value, ast.IfExp):
-    ie = rv[0].value
-    exact = repo.try_const(ftm, ie.orelse, te)
-    good = norm(ie.body) == 'self.priority' and norm(ie.test) == 'self.match.is_wildcarded' and isinstance(exact, int) and exact > 0xffff
-  ctx.ob('R-AGREE', ep, "an exact match outranks every 16-bit priority; wildcarded entries use their own priority", good, norm(rv[0].value) if rv else "?", ep, 'D4')
+  eg = q.cfg_of(ep)
+  def rets_under (flag):
+    is_w = lambda e: isinstance(e, ast.Attribute) and e.attr == 'is_wildcarded'
+    r = q.reach_under(repo, ftm, eg, q.Env({}, [(is_w, flag)]), te)
+    return [n.ast.value for n in eg.nodes if n.kind == 'return' and n in r and n.ast.value is not None]
+  rw = rets_under(True); rx = rets_under(False)
+  exact = [repo.try_const(ftm, v, te) for v in rx]
+  good = len(rw) == 1 and norm(rw[0]) == 'self.priority' and len(rx) == 1 and isinstance(exact[0], int) and exact[0] > 0xffff
+  ctx.ob('R-AGREE', ep, "an exact match outranks every 16-bit priority; wildcarded entries use their own priority", good,
+         "wildcarded -> %s, exact -> %s" % ([norm(v) for v in rw], exact) if good else
+         "effective priority is %s for a wildcarded entry and %s for an exact one: it must be the entry's own priority resp. a constant above 0xffff" % ([norm(v) for v in rw], [norm(v) for v in rx]), ep, 'D4')
   # is_wildcarded: true for every single wildcard bit, false for none
   iw = None
   for bn in m.node.body:
